@@ -87,9 +87,16 @@ def e2e_universe(rng, kind, n):
     return ks
 
 
-def gen_script(rng, kind, nops, with_clear=True):
-    """-> (keys, pool of ops, top-level list of pool indices, bodies: id -> [segments of pool indices])"""
-    target = rng.choice([12, 60, 200, 500])
+def gen_script(rng, kind, nops, with_clear=True, histories=1):
+    """-> (keys, pool of ops, top-level list of pool indices, bodies: id -> [segments of pool indices]).
+    `histories` > 1: that many short histories, each on a fresh map (quick tier); the second one is an explicit
+    clear + refill, every one ends with a full range loop."""
+    if histories > 1:
+        targets = [rng.choice([10, 14]), 40, rng.choice([20, 70]), 9, rng.choice([30, 100])][:histories]
+        target = max(targets)
+    else:
+        target = rng.choice([12, 60, 200, 500])
+        targets = [target]
     keys = e2e_universe(rng, kind, int(target * 2.5) + 20)
     pool, top, bodies = [], [], []
     val = [0]
@@ -117,55 +124,79 @@ def gen_script(rng, kind, nops, with_clear=True):
         val[0] += 1
         return new(SET, ki, val[0])
 
-    if rng.random() < 0.6:
-        top.append(new(NIL))
-        for _ in range(rng.randint(2, 6)):
-            ki = rng.randrange(len(keys))
-            top.append(new(rng.choice([GET, GET1, DEL, LEN, SET, CLR, RNG]), ki, 1))   # clear(nil map) is a no-op
-            if pool[top[-1]][0] == RNG:
-                pool[top[-1]] = (RNG, len(bodies), 0)
-                bodies.append([[new(LEN)]])
-    top.append(new(MK, 0, rng.choice([0, 0, 5, 9, 100, target])))
-    grow = True
-    n_live = 0
-    while len(pool) < nops:
-        r = rng.random()
-        if r < 0.55:
-            ki = rng.randrange(len(keys))
-            val[0] += 1
-            if grow or rng.random() < 0.3:
+    def range_loop(mutating=True):
+        segs = []
+        for _ in range(rng.choice([1, 2, 3, 5]) if mutating else 1):
+            seg = [rnd_mut(True) for _ in range(rng.choice([0, 1, 2, 4, 9]))] if mutating else []
+            if mutating and rng.random() < 0.04:
+                seg.append(new(BRK))
+            segs.append(seg)
+        top.append(new(RNG, len(bodies), 0))
+        bodies.append(segs)
+
+    special = [i for i, k in enumerate(keys) if k.unh or not k.refl or k.show in ("f 0", "f %d" % (1 << 63))]
+    for hno, target in enumerate(targets):
+        budget = len(pool) + nops // len(targets)
+        if hno == 0 and (histories > 1 or rng.random() < 0.6):
+            top.append(new(NIL))
+            for _ in range(rng.randint(2, 6)):
+                ki = rng.randrange(len(keys))
+                top.append(new(rng.choice([GET, GET1, DEL, LEN, SET, CLR, RNG]), ki, 1))   # clear(nil map) is a no-op
+                if pool[top[-1]][0] == RNG:
+                    pool[top[-1]] = (RNG, len(bodies), 0)
+                    bodies.append([[new(LEN)]])
+        top.append(new(MK, 0, rng.choice([0, 0, 5, 9, 100, target])))
+        if histories > 1:
+            for ki in special:            # ±0, NaN, unhashable dynamic values: always exercised
+                val[0] += 1
                 top.append(new(SET, ki, val[0]))
-                n_live += 1
-            else:
-                top.append(new(DEL, ki))
-                n_live -= 1
-            if n_live > target:
-                grow = False
-            if n_live < target // 4:
-                grow = True
-        elif r < 0.7:
-            top.append(new(rng.choice([GET, GET, GET1]), rng.randrange(len(keys))))
-        elif r < 0.75:
-            top.append(new(LEN))
-        elif r < 0.76 and with_clear:
+                top.append(new(GET, ki))
+        if histories > 1 and hno == 1 and with_clear:
+            # clear + refill: fill (the map grows past one bucket array), clear, fill with other keys, look around
+            first = rng.sample(range(len(keys)), min(len(keys), target))
+            for ki in first:
+                val[0] += 1
+                top.append(new(SET, ki, val[0]))
             top.append(new(CLR))
-            n_live = 0
-            grow = True
-        elif rng.random() >= min(1.0, 320.0 / nops):
-            top.append(new(GET, rng.randrange(len(keys))))       # keep the number of loops (and the trace) bounded
-        else:
-            # a range loop whose body mutates the map
-            segs = []
-            for _ in range(rng.choice([1, 2, 3, 5])):
-                seg = [rnd_mut(True) for _ in range(rng.choice([0, 0, 1, 2, 4, 9]))]
-                if rng.random() < 0.04:
-                    seg.append(new(BRK))
-                segs.append(seg)
-            top.append(new(RNG, len(bodies), 0))
-            bodies.append(segs)
-    top.append(new(RNG, len(bodies), 0))
-    bodies.append([[]])
-    top.append(new(LEN))
+            top.append(new(LEN))
+            for ki in rng.sample(range(len(keys)), min(len(keys), target)):
+                val[0] += 1
+                top.append(new(SET, ki, val[0]))
+            top.append(new(LEN))
+            range_loop(False)
+            for ki in first[:10]:
+                top.append(new(GET, ki))
+        grow = True
+        n_live = 0
+        while len(pool) < budget:
+            r = rng.random()
+            if r < 0.55:
+                ki = rng.randrange(len(keys))
+                val[0] += 1
+                if grow or rng.random() < 0.3:
+                    top.append(new(SET, ki, val[0]))
+                    n_live += 1
+                else:
+                    top.append(new(DEL, ki))
+                    n_live -= 1
+                if n_live > target:
+                    grow = False
+                if n_live < target // 4:
+                    grow = True
+            elif r < 0.7:
+                top.append(new(rng.choice([GET, GET, GET1]), rng.randrange(len(keys))))
+            elif r < 0.75:
+                top.append(new(LEN))
+            elif r < 0.76 and with_clear:
+                top.append(new(CLR))
+                n_live = 0
+                grow = True
+            elif rng.random() >= min(1.0, 320.0 / nops):
+                top.append(new(GET, rng.randrange(len(keys))))       # keep the number of loops (and the trace) bounded
+            else:
+                range_loop(True)                                      # a range loop whose body mutates the map
+        range_loop(False)
+        top.append(new(LEN))
     return keys, pool, top, bodies
 
 
@@ -324,7 +355,7 @@ func run_@KIND@() {
 '''
 
 
-def gen_program(rng, kinds, nops, with_clear=True):
+def gen_program(rng, kinds, nops, with_clear=True, histories=1):
     src = GO_PRELUDE + '''
 func vstr(v int32) string {
 	// "v" + decimal, without strconv
@@ -357,7 +388,7 @@ func vnum(s string) int64 {
 '''
     meta = {}
     for kind in kinds:
-        keys, pool, top, bodies = gen_script(rng, kind, nops, with_clear)
+        keys, pool, top, bodies = gen_script(rng, kind, nops, with_clear, histories)
         kt, vt = KIND_DECL[kind]
         t = GO_KIND.replace("@KIND@", kind).replace("@KT@", kt).replace("@VT@", vt)
         if kind == "arr":
